@@ -29,6 +29,9 @@ type xreq struct {
 	BodySeed uint64         `json:"body_seed"`
 	Chunks   []int          `json:"chunks,omitempty"`
 	RawOWS   bool           `json:"raw_ows"` // send extra white space around the field values
+	// Trailers: trailer fields sent after the last chunk (chunked framing only); the names must be announced
+	// by a Trailer field among Fields
+	Trailers []g01rig.Field `json:"trailers,omitempty"`
 	// Deny: the request goes to a host the proxy's deny-domains rule refuses (403, nothing forwarded); it is
 	// there for the requests that FOLLOW it on the connection (its body must not leak into them)
 	Deny bool `json:"deny,omitempty"`
@@ -55,6 +58,7 @@ type xobsJ struct {
 	Framing   string         `json:"framing"`
 	BodyLen   int            `json:"body_len"`
 	BodyEqual bool           `json:"body_equal"`
+	Trailers  []g01rig.Field `json:"trailers,omitempty"`
 	Err       string         `json:"err,omitempty"`
 }
 
@@ -238,7 +242,11 @@ func (rg *e2eRig) render(q xreq, tag, origin string) ([]byte, string, []g01rig.F
 			b.WriteString("\r\n")
 			rest = rest[n:]
 		}
-		b.WriteString("0\r\n\r\n")
+		b.WriteString("0\r\n")
+		for _, f := range q.Trailers {
+			fmt.Fprintf(&b, "%s: %s\r\n", f.Name, f.Value)
+		}
+		b.WriteString("\r\n")
 	default:
 		b.WriteString("\r\n")
 	}
@@ -293,6 +301,7 @@ func (rg *e2eRig) runConn(c xconn) ([]xobsJ, []sentInfo) {
 			obs[i].Method, obs[i].Target, obs[i].Proto = r.Method, r.Target, r.Proto
 			obs[i].Fields, obs[i].Framing, obs[i].BodyLen = r.Fields, r.Framing, len(r.Body)
 			obs[i].BodyEqual = bytes.Equal(r.Body, sent[i].body)
+			obs[i].Trailers = r.Trailers
 		}
 	}
 	if c.Pipelined {
@@ -406,6 +415,14 @@ func trickle(cl *g01rig.Client, raw []byte, pause time.Duration) error {
 	return nil
 }
 
+// trailersOf: the trailer fields actually sent (only with chunked framing).
+func trailersOf(q xreq) []g01rig.Field {
+	if q.Framing != "chunked" {
+		return nil
+	}
+	return q.Trailers
+}
+
 func framingN(f string) int {
 	switch f {
 	case "cl":
@@ -445,10 +462,12 @@ func (rg *e2eRig) coqXcase(c xconn, i int, o xobsJ, s sentInfo) string {
 		tag = rg.tagR
 	}
 	maj, min := protoNums(q.Proto)
-	in := fmt.Sprintf("{| xi_mode := %d; xi_tag := %s; xi_client_ip := %s; xi_method := %s; xi_target := %s; xi_maj := %d; xi_min := %d; xi_fields := %s; xi_framing := %d; xi_blen := %d |}",
-		mode, coqfmt.Str(tag), coqfmt.Str("127.0.0.1"), coqfmt.Str(q.Method), coqfmt.Str(s.target), maj, min, coqFields(s.fields), framingN(q.Framing), len(s.body))
-	ob := fmt.Sprintf("{| xb_status := %d; xb_count := %d; xb_method := %s; xb_target := %s; xb_proto := %s; xb_fields := %s; xb_framing := %d; xb_blen := %d; xb_body_equal := %s |}",
-		o.Status, o.Count, coqfmt.Str(o.Method), coqfmt.Str(o.Target), coqfmt.Str(o.Proto), coqFields(o.Fields), framingN(o.Framing), o.BodyLen, coqfmt.Bool(o.BodyEqual))
+	in := fmt.Sprintf("{| xi_mode := %d; xi_tag := %s; xi_client_ip := %s; xi_method := %s; xi_target := %s; xi_maj := %d; xi_min := %d; xi_fields := %s; xi_framing := %d; xi_blen := %d; xi_trailers := %s |}",
+		mode, coqfmt.Str(tag), coqfmt.Str("127.0.0.1"), coqfmt.Str(q.Method), coqfmt.Str(s.target), maj, min, coqFields(s.fields), framingN(q.Framing), len(s.body),
+		coqFields(trailersOf(q)))
+	ob := fmt.Sprintf("{| xb_status := %d; xb_count := %d; xb_method := %s; xb_target := %s; xb_proto := %s; xb_fields := %s; xb_framing := %d; xb_blen := %d; xb_body_equal := %s; xb_trailers := %s |}",
+		o.Status, o.Count, coqfmt.Str(o.Method), coqfmt.Str(o.Target), coqfmt.Str(o.Proto), coqFields(o.Fields), framingN(o.Framing), o.BodyLen, coqfmt.Bool(o.BodyEqual),
+		coqFields(o.Trailers))
 	if c.Mode == "R" {
 		u := &url.URL{Scheme: "http", Host: rg.O.Addr(), Path: "/"}
 		return "{| y_cfg := " + coqCfg(rg.cfgR, rg.cmR, u) + "; y_in := " + in + "; y_obs := " + ob + " |}"
@@ -587,6 +606,19 @@ func genXreq(r *rng.R, last bool) xreq {
 			q.BodyLen = 0
 		}
 	}
+	if q.Framing == "chunked" && r.Chance(1, 4) {
+		names := []string{"X-Checksum", "x-trace-end", "X-T2"}
+		n := 1 + r.Intn(3)
+		add("Trailer", strings.Join(names[:n], r.Pick([]string{",", ", ", " ,"})))
+		for i := 0; i < n; i++ {
+			if r.Chance(4, 5) { // an announced trailer may be missing
+				q.Trailers = append(q.Trailers, g01rig.Field{Name: names[i], Value: r.Pick([]string{"abc", "1", "x y"})})
+			}
+		}
+		if r.Chance(1, 4) {
+			q.Trailers = append(q.Trailers, g01rig.Field{Name: names[0], Value: "second"})
+		}
+	}
 	q.RawOWS = r.Chance(1, 6)
 	if last {
 		switch r.Intn(6) {
@@ -596,6 +628,7 @@ func genXreq(r *rng.R, last bool) xreq {
 			q.Proto = "HTTP/1.0"
 			if q.Framing == "chunked" {
 				q.Framing = "cl"
+				q.Trailers = nil
 			}
 		}
 	}
@@ -678,6 +711,11 @@ func xcorpus() []xconn {
 		one("U", xreq{Method: "PUT", Target: "http://{O}/big", Proto: "HTTP/1.1", Fields: []g01rig.Field{h}, Framing: "cl", BodyLen: 70000, BodySeed: 9}),
 		one("D", xreq{Method: "GET", Target: "/ws", Proto: "HTTP/1.1", Fields: []g01rig.Field{h, {"Connection", "Upgrade"}, {"Upgrade", "websocket"}, {"Sec-WebSocket-Key", "x"}}, Framing: "none"}),
 		one("D", xreq{Method: "GET", Target: "/x", Proto: "HTTP/1.1", Fields: []g01rig.Field{h, {"Connection", "x-a, keep-alive"}, {"X-A", "1"}, {"Keep-Alive", "timeout=5"}, {"Proxy-Authorization", "Basic Zm9vOmJhcg=="}, {"TE", "trailers"}, {"X-B", "2"}}, Framing: "none"}),
+		{Kind: "e2e", Mode: "D", Reqs: []xreq{ // trailers are forwarded and re-announced; the next request is unaffected
+			{Method: "POST", Target: "/trailers", Proto: "HTTP/1.1", Fields: []g01rig.Field{h, {"Trailer", "X-T2, x-t1"}, {"X-A", "1"}}, Framing: "chunked", BodyLen: 100, BodySeed: 5, Chunks: []int{40},
+				Trailers: []g01rig.Field{{"X-T1", "one"}, {"X-T2", "two"}, {"X-T2", "again"}}},
+			{Method: "GET", Target: "/after-trailers", Proto: "HTTP/1.1", Fields: []g01rig.Field{h}, Framing: "none"},
+		}},
 		one("D", xreq{Method: "GET", Target: "/two-user-agents", Proto: "HTTP/1.1", Fields: []g01rig.Field{h, {"User-Agent", "first/1.0"}, {"User-Agent", "second/2.0"}}, Framing: "none"}),
 		one("D", xreq{Method: "GET", Target: "/empty-accept-encoding", Proto: "HTTP/1.1", Fields: []g01rig.Field{h, {"Accept-Encoding", ""}}, Framing: "none"}),
 		one("D", xreq{Method: "GET", Target: "/pragma", Proto: "HTTP/1.1", Fields: []g01rig.Field{h, {"Pragma", "no-cache"}}, Framing: "none"}),
@@ -923,6 +961,7 @@ func (rg *e2eRig) runConcurrent(r *rng.R, nWorkers, perWorker int) ([]string, []
 				j.obs.Method, j.obs.Target, j.obs.Proto = rq.Method, rq.Target, rq.Proto
 				j.obs.Fields, j.obs.Framing, j.obs.BodyLen = rq.Fields, rq.Framing, len(rq.Body)
 				j.obs.BodyEqual = bytes.Equal(rq.Body, j.s.body)
+				j.obs.Trailers = rq.Trailers
 			}
 			xc = append(xc, rg.coqXcase(j.c, 0, j.obs, j.s))
 			xj = append(xj, xrec{Conn: j.c, Index: 0, Kind: "e2e", Obs: j.obs})
